@@ -813,6 +813,10 @@ class Engine:
         return self.ev(lam.node.body, env2, pc)
 
     def call_named(self, name, args, kw, env, pc, line, node=None):
+        # ghost call counter: a unit that mentions `__calls_<name>__` gets that variable incremented at every call of <name>
+        ck = "__calls_" + name.replace(".", "_") + "__"
+        if ck in env and isinstance(env[ck], VInt):
+            env[ck] = VInt(env[ck].t + 1)
         spec = self.unit.calls.get(name)
         if spec is None and name.startswith("self."):
             spec = self.unit.calls.get(name[5:])
@@ -1565,6 +1569,8 @@ class Engine:
                     mod.add(n.value.id)
                 elif isinstance(n, (ast.Yield,)):
                     mod.add("__yields__")
+                elif isinstance(n, ast.Call):
+                    mod.add("__calls_" + ast.unparse(n.func).replace(".", "_") + "__")
         return sorted(m for m in mod if m in env)
 
     def loop_spec(self, st):
